@@ -33,7 +33,7 @@ ASSUMPTIONS = [
     "key bits are clear wherever mask bits are clear",
     "sources contain links and/or None",
 ]
-FLOORS = {"same_list_new_contents": 300, "no_raise_call": 150, "feedback_table_with_produced_entry": 100,
+FLOORS = {"empty_method_chain_failure": 30, "same_list_new_contents": 300, "no_raise_call": 150, "feedback_table_with_produced_entry": 100,
           "equivalence_keys": 20000, "shorter_result": 100,
           "failure_report": 30, "default_routed_key": 50,
           "merged_entry_match": 200}
@@ -238,7 +238,7 @@ def gen(cls, idx, rng, tier):
         fns = ["rde"] * 3
     else:
         fns = ["oc", "rde", "mt", "oc", "mt",
-               rng.choice(["occ", "occ_noraise"])]
+               rng.choice(["occ", "occ_noraise", "mt_empty"])]
         if t["mode"] == "orth":
             fns.append("rde_noalias")
     t["calls"] = [(f, targets(rng, n)) for f in fns]
@@ -362,6 +362,10 @@ def call_min(mods, fn, table, target):
         return rde.minimise(table, target, check_for_aliases=False)
     if fn == "mt":
         return mm.minimise_table(table, target)
+    if fn == "mt_empty":
+        # the front end told to try no method at all: the table as it is
+        # either fits or the failure reports its size
+        return mm.minimise_table(table, target, methods=())
     if fn == "occ":
         # the merging step on its own (no default-route removal after it)
         return oc.ordered_covering(table, target)[0]
@@ -389,8 +393,13 @@ def judge_call(ctx, mods, t, fn, old, target, Routes, MFE, what, arg=None):
         check(isinstance(fl, int) and fl > target, "failure-but-target-met",
               "%s: failed reporting final_length=%r for target %r" %
               (what, fl, target))
-        alone = [fn] if fn != "mt" else ["rde", "oc"]
-        best = min(len(call_min(mods, f, list(old), None)) for f in alone)
+        if fn == "mt_empty":
+            ctx.hit("empty_method_chain_failure")
+            best = len(old)
+        else:
+            alone = [fn] if fn != "mt" else ["rde", "oc"]
+            best = min(len(call_min(mods, f, list(old), None))
+                       for f in alone)
         if fn == "mt":
             best = min(best, len(old))
         check(fl == best, "failure-best-size",
